@@ -136,7 +136,7 @@ def registry(model, R):
         R.check(const(d) == want, 'API-DEFAULT', f, d or f.node, f'{f.name}({param}) default', repr(want), src(d))
     for key, want in (('__init__.load_cxt', "Context.fromfile(filename, 'cxt', encoding)"),
                       ('__init__.load_csv', "Context.fromfile(filename, 'csv', encoding, dialect=dialect)"),
-                      ('__init__.make_context', 'Context.fromstring(source, frmat=frmat)')):
+                      ('__init__.make_context', 'Context.fromstring(source, frmat)')):
         f = model.func(key)
         R.returns(f, want, 'PARAMS', f'{f.name} routes to the named format with the caller\'s arguments')
     df = model.func('definitions.Triple.fromfile')
